@@ -1,6 +1,8 @@
 package sym
 
 import (
+	"strings"
+	"path/filepath"
 	"time"
 	"runtime"
 	"fmt"
@@ -89,6 +91,58 @@ func (m *Machine) pos(p token.Pos) string {
 	}
 	pp := m.P.prog.Fset.Position(p)
 	return fmt.Sprintf("%s:%d", shortFile(pp.Filename), pp.Line)
+}
+
+// repoSite names the statement of the code under test (a file of the repository, not a
+// harness or model file) that the current goroutine is executing: the innermost frame
+// whose current instruction lies in such a file. "" if there is none.
+func (m *Machine) repoSite(p token.Pos) string {
+	ok := func(p token.Pos) string {
+		if p == token.NoPos {
+			return ""
+		}
+		pp := m.P.prog.Fset.Position(p)
+		if !strings.HasPrefix(pp.Filename, m.P.RepoDir+"/") || strings.HasPrefix(filepath.Base(pp.Filename), "zz_verif") {
+			return ""
+		}
+		return fmt.Sprintf("%s:%d", pp.Filename, pp.Line)
+	}
+	if p != token.NoPos {
+		if s, hit := m.siteCache[p]; hit {
+			if s != "" {
+				return s
+			}
+		} else {
+			if m.siteCache == nil {
+				m.siteCache = map[token.Pos]string{}
+			}
+			s := ok(p)
+			m.siteCache[p] = s
+			if s != "" {
+				return s
+			}
+		}
+	}
+	for fr := m.topFrame; fr != nil; fr = fr.caller {
+		if fr.curInstr != nil {
+			if s := ok(fr.curInstr.Pos()); s != "" {
+				return s
+			}
+		}
+	}
+	return ""
+}
+
+func (m *Machine) addSite(s string) {
+	if s == "" {
+		return
+	}
+	for _, x := range m.sites {
+		if x == s {
+			return
+		}
+	}
+	m.sites = append(m.sites, s)
 }
 
 func shortFile(f string) string {
@@ -288,6 +342,7 @@ func (m *Machine) runFrame(fr *frame) {
 		for _, instr := range nonPhis {
 			m.steps++
 			fr.curInstr = instr
+			m.topFrame = fr
 			if m.steps&0xffff == 0 && m.cfg.MaxPathSecs > 0 && time.Since(m.pathStart) > time.Duration(m.cfg.MaxPathSecs)*time.Second {
 				m.end(EndUnwind, "path time limit %ds exceeded in %s", m.cfg.MaxPathSecs, fr.fn)
 			}
@@ -471,8 +526,11 @@ func (m *Machine) visitInstr(fr *frame, instr ssa.Instruction) continuation {
 		}
 
 	case *ssa.MakeSlice:
-		n := m.concreteInt(fr.get(instr.Len), "make len")
-		c := m.concreteInt(fr.get(instr.Cap), "make cap")
+		n := m.smallInt(fr.get(instr.Len), "make len")
+		c := n
+		if instr.Cap != instr.Len {
+			c = m.smallInt(fr.get(instr.Cap), "make cap")
+		}
 		if n < 0 || c < n || c > 1<<24 {
 			m.runtimePanic(fr, instr.Pos(), "makeslice: len out of range")
 		}
@@ -557,12 +615,27 @@ func (m *Machine) visitInstr(fr *frame, instr ssa.Instruction) continuation {
 		fr.env[instr] = &Closure{instr.Fn.(*ssa.Function), bindings}
 
 	case *ssa.Select:
-		unsupportedf("select")
+		fr.env[instr] = m.selectOp(fr, instr)
 
 	default:
 		unsupportedf("instruction %T", instr)
 	}
 	return kNext
+}
+
+// smallInt returns a concrete value for an integer that may be symbolic by forking over
+// 0..256 (lengths computed from symbolic contents, e.g. a separator count).
+func (m *Machine) smallInt(v Value, what string) int {
+	t := v.(*Term)
+	if t.IsConst() {
+		return int(sx(t.val, t.w))
+	}
+	t = Zext(t, 64)
+	i := m.forkIndex(t, 257, what)
+	if i < 0 {
+		unsupportedf("symbolic %s above 256", what)
+	}
+	return i
 }
 
 func (m *Machine) concreteInt(v Value, what string) int {
